@@ -289,8 +289,8 @@ def run(ctx, chk, tier):
         else:
             chk.violation("R16.1", r["caller"], "call:%s" % r["callee"].split(".")[-1], "%s  ->  TypeError: %s" % (r["src"], r["verdict"]),
                           "a call that binds against %s" % r["callee"], "%s:%d" % (r["relpath"], r["line"]))
-    if n < 120 or support_sites < 2:
-        chk.unknown("R16.1", "only %d resolvable call sites (%d of the support-point helper); floors 120 / 2" % (n, support_sites))
+    if n < 120 or support_sites < 1:
+        chk.unknown("R16.1", "only %d resolvable call sites (%d of the support-point helper); floors 120 / 1" % (n, support_sites))
     # positive control for the zero-finding rule
     import ast as _ast
     from ..conform import bind, signature
